@@ -140,7 +140,14 @@ func (u *Unit) VerifyFunc() {
 	if u.C != nil && !u.timedOut {
 		for i, cl := range u.C.Clauses {
 			if cl.Kind == "assert_call" && !u.assertCallSeen[i] {
-				u.errs = append(u.errs, fmt.Sprintf("%s:%d: assert_call designator %q matched no call site", cl.File, cl.Line, cl.Desig))
+				// the contract describes a call that the code no longer makes on any path
+				lbl := cl.Name
+				if lbl == "" {
+					lbl = fmt.Sprintf("c%d", i)
+				}
+				o := u.getOblig(u.obligName("assert_call:"+cl.Desig, lbl+"#missing"), "assert_call", u.tagsOr(cl.Tags), u.Fn.Pos(), "assert_call "+cl.Text+" (no call to "+cl.Desig+" is reachable)")
+				o.Paths++
+				o.Failures = append(o.Failures, &Failure{Asserts: []string{"true"}, Goal: "false", Result: "sat"})
 			}
 		}
 	}
